@@ -92,9 +92,11 @@ where
     let n = ends.len();
     // per-piece coefficient choice
     let mut srcs: Vec<Vec<f64>> = vec![];
+    // power-of-two scale of all coefficients and of k0.y (scale invariance; only for short functions to bound the cost)
+    let sc = if n <= 2 { [1.0, 8.673617379884035e-19, 1099511627776.0][cx.choose(3)] } else { 1.0 };
     for i in 0..n {
         let v = match cx.choose(3) { 0 => &VEC_A, 1 => &VEC_B, _ => &VEC_C };
-        srcs.push(v[..T::N].iter().map(|c| c * (1.0 + 0.25 * i as f64)).collect());
+        srcs.push(v[..T::N].iter().map(|c| c * (1.0 + 0.25 * i as f64) * sc).collect());
     }
     let lo = ends[0];
     let hi = ends[n - 1];
@@ -105,7 +107,7 @@ where
         2 => if n > 1 && ends[1] > lo { lo * 0.5 + ends[1] * 0.5 } else { lo + 0.25 },
         _ => hi + 1.5,
     };
-    let ky = [0.0, 2.5, -1e3][ks % 3];
+    let ky = [0.0, 2.5, -1e3][ks % 3] * sc;
     let k0 = Knot { x: kx, y: ky };
     let f: Piecewise<T> = Piecewise { segments: ends.iter().zip(&srcs).map(|(&e, c)| Segment { end: e, poly: T::from_nums(c) }).collect() };
     let detail = |obs: Value| json!({"piece_type": type_name::<T>(), "ends": fjs(ends), "piece_coefficients": srcs.iter().map(|c| fjs(c)).collect::<Vec<_>>(), "k0": {"x": fj(kx), "y": fj(ky)}, "observation": obs});
@@ -281,7 +283,7 @@ pub fn check(thorough: bool, _seed: u64) -> Check {
             }
         }),
         classes: vec![("k0.x_inside_first_piece", true), ("k0.x_at_first_end", true), ("k0.x_beyond_first_end", true), ("k0.x_beyond_last_end", true), ("duplicate_breakpoints", true)],
-        bounds: json!({"piece_types": "Poly0..Poly7", "shapes": format!("end lists of length 1..{maxlen} over {{-1,0.5,2,3}}"), "per piece": "coefficients from 3 vectors (all ones, alternating fractions, lane identifier), scaled per piece",
+        bounds: json!({"piece_types": "Poly0..Poly7", "shapes": format!("end lists of length 1..{maxlen} over {{-1,0.5,2,3}}"), "per piece": "coefficients from 3 vectors (all ones, alternating fractions, lane identifier), scaled per piece; functions of 1-2 pieces also with everything scaled by 2^-60 and 2^40",
             "k0": "x in {inside first piece, = first end, beyond it, beyond last end} x y in {0,2.5,-1e3}", "evaluation points": "finite part of A(ends)"}),
     };
     let ls = log_shapes.clone();
